@@ -1,6 +1,11 @@
 package ipfshttp
 
-import "context"
+import (
+	"context"
+	"time"
+)
+
+const vrfPinTimeout = 5 * time.Second
 
 func vrfNewConnector(d *vrfDaemon) (*Connector, func()) {
 	ctx, cancel := context.WithCancel(context.Background())
